@@ -128,6 +128,9 @@ func runC11(c *Ctx) {
 	c.Doc("R11.3", "RepoCacheBug.NewRaw / RepoCacheIdentity.finishIdentity return success only after the instance is in the loaded set and entityUpdated succeeded")
 	c.Doc("R11.5", "evictIfNeeded deletes from the loaded set only on the !NeedCommit() edge, together with lru.Remove; entityUpdated fails when the entity is not loaded")
 	checkExcerptIndexPairing(c)
+	checkExcerptDataPath(c, "R11.9")
+	checkLoadAllOrRebuild(c, "R11.10")
+	checkSingleInstance(c, newLockWorld(w))
 	checkMutatorsNotify(c, "R11.2")
 	checkCreationRegisters(c)
 	checkCacheMergeFold(c, "R11.4")
